@@ -393,7 +393,7 @@ func genExcCases(c *Ctx) []json.RawMessage {
 }
 
 func checkC18(c *Ctx) {
-	c.rule = "MC: the full case table of the algebra over all kinds x type ids {0,1,6,10,11,-1,2^31-1,-2^31} x messages {\"\",m} x prefixes x cause chains of depth <= 2 (incl. standard-library %w wrappers around every kind) satisfies the clauses of C18. TRACE: every (kind, type id, message, prefix) combination incl. empty messages (default-message table), long and binary messages, random int32 type ids, wrapped chains, fmt.Errorf(%w) wrappers around every kind (a protocol exception buried in a wrapper is wrapped, not returned); PrependError, NewProtocolExceptionWithErr, errors.Is (pairwise truth table, targeted (type id, text) matches and near-misses) and Unwrap on real values; TLC computes the expected dynamic kind, TypeId, Error() text and Is outcome. Also the standard library sentinel VALUES (io.EOF, io.ErrUnexpectedEOF, context.Canceled, os.ErrDeadlineExceeded, io.ErrClosedPipe) as plain errors with fixed identity, bare and inside one and two %w wrappers. Also values of standard-library error types without a chain of their own (base64.CorruptInputError, hex.InvalidByteError, strconv.ErrRange, *json.SyntaxError, *net.AddrError ...)."
+	c.rule = "MC: the full case table of the algebra over all kinds x type ids {0,1,6,10,11,-1,2^31-1,-2^31} x messages {\"\",m} x prefixes x cause chains of depth <= 2 (incl. standard-library %w wrappers around every kind) satisfies the clauses of C18. TRACE: every (kind, type id, message, prefix) combination incl. empty messages (default-message table), long and binary messages, random int32 type ids, wrapped chains, fmt.Errorf(%w) wrappers around every kind (a protocol exception buried in a wrapper is wrapped, not returned); PrependError, NewProtocolExceptionWithErr, errors.Is (pairwise truth table, targeted (type id, text) matches and near-misses) and Unwrap on real values; TLC computes the expected dynamic kind, TypeId, Error() text and Is outcome. Also the standard library sentinel VALUES (io.EOF, io.ErrUnexpectedEOF, context.Canceled, os.ErrDeadlineExceeded, io.ErrClosedPipe) as plain errors with fixed identity, bare and inside one and two %w wrappers. Also values of standard-library error types without a chain of their own (base64.CorruptInputError, hex.InvalidByteError, strconv.ErrRange, *json.SyntaxError, *net.AddrError ...). Prefixes a formatting function would interpret (%, %%, %d, %s, %[2]s, %w ...)."
 	c.MC("MC_Exceptions.tla", "MC_Exceptions.cfg", 4)
 	c.TraceCheck(famExc, genExcCases(c))
 	c.Assume("error values are described to TLC as records (kind, type id, message, text, cause, identity)")
